@@ -155,3 +155,26 @@ PROPS["C10"] = dict(
                 quick=dict(workers=16, checks=4000, steps=30, watchdog_s=900),
                 thorough=dict(workers=16, checks=400000, steps=40, watchdog_s=7200))],
 )
+
+PROPS["C19"] = dict(
+    level="exploration",
+    engine="hist+medium",
+    technique="deterministic simulation: seeded field sequences through one Encoder over an exactly sized, pattern-filled buffer with failing Marshaler/MarshalerTo/Unmarshaler collaborators injected at drawn positions; model cursor oracle; read-back through a truncating medium",
+    design_ref="DESIGN.md 4.1, 5 (C19)",
+    level_text=("Seeded search over sequences of scalar and nested fields of five flavours (regenerated fast-marshal types, Size+Marshal-only stub, MarshalTo stub, plain gogo, "
+                "legacy golang/protobuf v1, plain protobuf-go v2 incl. well-known types) at first/middle/last position. After each EncodeNested the bytes written must be key + "
+                "length + exactly csproto.Marshal(m) (modulo map order), everything beyond the model cursor must still hold the fill pattern, and an injected error must come "
+                "back unchanged. The buffer is then read back with DecodeNested into matching types or stub Unmarshalers that fail on demand, optionally truncated inside a nested "
+                "payload: the cursor must move by prefix + declared length, the message must equal the original, the stub's error must propagate, and a declared length beyond "
+                "the buffer must be rejected without invoking the nested decoder. Sampling, not proof."),
+    level_note="Trusted: protowire (model bytes), protobuf-go reflection for populating and comparing messages, the stubs.",
+    needs=["corpus"],
+    rule=("one execution = 1-6 drawn fields (scalars and nested messages of drawn flavours and values, incl. empty), at most one injected encode failure, followed by a read-back with drawn "
+          "decode targets, decode failure and medium fault; non-trivial = at least one field was encoded and judged; distinct = hash of flavours and steps"),
+    real=["Encoder.EncodeNested, Encoder scalar methods", "Decoder.DecodeNested/DecodeTag", "csproto.Size/Marshal/Unmarshal dispatch", "regenerated fast-marshal types and plain runtime types"],
+    model=["model cursor and expected bytes (protowire)", "failing / Marshal-only collaborators (stubs by design of the property)", "medium: truncation inside a nested payload"],
+    assumptions=["nested values whose csproto.Marshal itself fails or panics (C04/C17-class pure-input defects) are skipped and counted, not judged"],
+    tests=[dict(name="TestC19Hist", pkg="c19", race=False, mem_gb=16,
+                quick=dict(workers=16, checks=8000, steps=20, watchdog_s=900),
+                thorough=dict(workers=16, checks=600000, steps=20, watchdog_s=7200))],
+)
